@@ -105,8 +105,8 @@ def make_case(ctx, rng, i):
     return cfg_id, terms, prods, start, kind
 
 
-LIST_TOK = r"(?P<SPACE>\s+)|(?P<BO>\[)|(?P<BC>\])|(?P<COMMA>,)|(?P<W>[a-z]+)"
-LIST_SYN = {'BO': '[', 'BC': ']', 'COMMA': ',', 'W': 'w'}
+LIST_TOK = r"(?P<SPACE>\s+)|(?P<BO>\[)|(?P<BC>\])|(?P<COMMA>,)|(?P<W>[a-z]+)|(?P<CO>\{)|(?P<CC>\})|(?P<COLON>:)"
+LIST_SYN = {'BO': '[', 'BC': ']', 'COMMA': ',', 'W': 'w', 'CO': '{', 'CC': '}', 'COLON': ':'}
 
 
 def run_list_template_case(ctx, mon, opts):
@@ -121,7 +121,9 @@ def run_list_template_case(ctx, mon, opts):
     def user_productions():
         # a template object belongs to one parser: build new ones for every constructor call
         prods = {
-            'E': [('LIST',)],
+            # (a second, unrelated template in the same grammar)
+            'E': [('LIST',), ('M2',)],
+            'M2': llparser.MapProds('{', 'w', ':', 'w', ',', '}'),
             'LIST': llparser.ListProds(open_sym, 'ITEM', 'DELIM', ']', allow_final_delimiter=afd,
                                        optional=optional or None),
             'ITEM': ([('LIST', 'w')] if item_starts_with_list else []) + [('w',)] + ([None] if item_nullable else []),
@@ -132,7 +134,7 @@ def run_list_template_case(ctx, mon, opts):
         return prods
     # the productions the template stands for (documented in its doc string)
     expanded = {
-        'E': [('LIST',)],
+        'E': [('LIST',), ('{', '}')],
         'LIST': [(open_sym, ']'), (open_sym, 'ITEM', 'TAIL', ']')] + ([()] if optional else []),
         'TAIL': [('DELIM', 'ITEM', 'TAIL')] + ([('DELIM',)] if afd else []) + [()],
         'ITEM': ([('LIST', 'w')] if item_starts_with_list else []) + [('w',)] + ([()] if item_nullable else []),
@@ -162,6 +164,11 @@ def run_list_template_case(ctx, mon, opts):
             continue
         except AssertionError as err:
             ctx.violation("constructor-assertion", {"template": "ListProds", "msg": str(err)[:150]}, case)
+            continue
+        except Exception as err:
+            ctx.violation("constructor-raises-other-exception",
+                          {"template": "ListProds", "type": type(err).__name__, "msg": str(err)[:120],
+                           "cycle": cycle}, case)
             continue
         if cycle is not None:
             ctx.violation("left-recursive-grammar-accepted", {"template": "ListProds", "opts": list(opts),
@@ -353,7 +360,9 @@ def run_case(ctx, mon, cfg_id, terms, prods, start, kind, inputs_spec=None, rng=
         for _ in range(3):
             tok_lists.append([rng.choice(terms) for _ in range(rng.randint(0, 9))])
         for toks in tok_lists:
-            text, expected = cfg.render(rng, toks, dense=rng.random() < 0.2)
+            toks, text, expected = cfg.render_checked(rng, toks, dense=rng.random() < 0.2)
+            if toks is None:
+                continue
             inputs_spec.append((toks, text, expected, False))
     for toks, text, expected, _as_lines in inputs_spec:
         for smart, parser in parsers.items():
@@ -369,7 +378,8 @@ def run_case(ctx, mon, cfg_id, terms, prods, start, kind, inputs_spec=None, rng=
             elif not toks and form == 2:
                 src = []
             try:
-                parser.parse(src, do_cleanup=False)
+                # (every fifth parse with the parser's own trace switched on: the messages go nowhere)
+                parser.parse(src, do_cleanup=False, debug=(len(text) % 5 == 1))
                 ctx.count("parses_returned_tree")
             except llparser.ParsingError:
                 ctx.count("parses_raised_parsing_error")
@@ -388,6 +398,11 @@ def run_case(ctx, mon, cfg_id, terms, prods, start, kind, inputs_spec=None, rng=
                 ctx.maxi("max_stack_len_seen", mon.max_stack)
                 ctx.maxi("max_steps_seen", mon.steps)
     return inputs_spec
+
+
+import logging  # noqa: E402
+logging.getLogger(llparser.__name__).addHandler(logging.NullHandler())
+logging.getLogger(llparser.__name__).propagate = False
 
 
 def run_shard(ctx):
